@@ -1,9 +1,9 @@
-\* C15 quick, timestamp requests T in 1..4: TXIDs 1..3, <= 3 files, file timestamps 1..3.
+\* C15 quick, timestamp requests T in 1..4: TXIDs 1..3, levels {0,1,9}, <= 3 files, file timestamps 1..3.
 \* The runner rewrites `Part = 0` for every shard 0..Parts-1 (one TLC process each; Fanout: several workers per process).
 SPECIFICATION Spec
 CONSTANTS
   N = 3
-  Levels = {0, 1, 2, 9}
+  Levels = {0, 1, 9}
   MaxFiles = 3
   MaxTs = 3
   Part = 0
